@@ -540,6 +540,10 @@ func e10Case(kind string, seed uint64, n int) Case {
 		plan := &kit.Plan{Seed: rng.U64(), PYield: 120, PSleep: 30, MaxSleep: 80 * time.Microsecond}
 		if rng.Chance(50) {
 			plan.Targets = map[string]time.Duration{[]string{"refiltering...", "update:", "distribute event", "update event"}[rng.Intn(4)]: 60 * time.Microsecond}
+		} else if n%2 == 1 {
+			// hold a closing subscription between "done" and its removal from its publisher
+			// while sibling joins on the same base controllers are closed (coverage only)
+			plan.Targets = map[string]time.Duration{"subscription done": 150 * time.Microsecond}
 		}
 		core := kit.NewCore(plan)
 		if n%5 == 4 {
@@ -665,7 +669,28 @@ func e10Case(kind string, seed uint64, n int) Case {
 				return
 			}
 			mir := startMirror("join-subscriber", evch, ji.ready, nil)
+			// sibling joins over the same base controllers come and go while events are in
+			// flight; the join under observation must not notice
+			type sibJoin struct {
+				close func()
+				done  <-chan struct{}
+			}
+			var sibs, closing []sibJoin
 			for s := 0; s < steps && !r.Failed(); s++ {
+				if cyc%2 == 0 && g.joinCtx == nil {
+					if s%5 == 1 && len(sibs) < 3 {
+						if sj, err := g.mkJoin(); err == nil {
+							sibs = append(sibs, sibJoin{sj.close, sj.done})
+						}
+					}
+					if s%5 == 3 && len(sibs) > 0 {
+						v := sibs[0]
+						sibs = sibs[1:]
+						closing = append(closing, v)
+						go v.close()
+						r.Add("sibling-joins-closed-mid-stream", 1)
+					}
+				}
 				m := mutAny()
 				if len(trace) < 40 {
 					trace = append(trace, m)
@@ -717,6 +742,19 @@ func e10Case(kind string, seed uint64, n int) Case {
 			}
 			if mir.preReady() > 0 {
 				r.V("C08", "event-before-ready", "join subscriber received %d event(s) before the join's Ready() closed", mir.preReady())
+			}
+			for _, v := range sibs {
+				if !within(v.close) {
+					r.V("C09", "join-close-hang", "sibling join %s: Close() did not return\n%s", kind, kit.CensusText(kit.Census(), 10))
+					return
+				}
+				closing = append(closing, v)
+			}
+			for _, v := range closing {
+				if !waitCh(v.done, virtBound) {
+					r.V("C09", "join-close-hang", "sibling join %s: Done() did not close\n%s", kind, kit.CensusText(kit.Census(), 10))
+					return
+				}
 			}
 			// ---- close the join: everything it created stops, bases keep running ----
 			subClose()
